@@ -109,7 +109,10 @@ Inductive arg :=
 | ANil                      (* untyped nil interface *)
 | AForeign.                 (* a value of an unrelated type *)
 
-(* x after the type switch of the header: None = the header returned by itself *)
+(* x after the type switch of the header: None = the header returned by itself.
+   A nil **T leaves x nil (`if p != nil { x = *p }`, fix: commits 1a38871, 9e61cd0): no header
+   dereferences it any more, the [inr] alternative is kept for the shape of the callers.  The
+   path methods return on a nil x right after the switch (see their models). *)
 Definition header_x (a : arg) : option cur + pkind :=
   match a with
   | AVal v => inl (Some (CVal v))
@@ -117,7 +120,7 @@ Definition header_x (a : arg) : option cur + pkind :=
   | APtr None => inl (Some CNil)
   | APtrPtr (Some (Some v)) => inl (Some (CVal v))
   | APtrPtr (Some None) => inl (Some CNil)
-  | APtrPtr None => inr PNilDeref                (* x = *p with p nil *)
+  | APtrPtr None => inl (Some CNil)              (* p nil: x stays nil *)
   | ANil | AForeign => inl None
   end.
 
